@@ -55,8 +55,11 @@ class Gen:
     """Program generator with a straight-line shadow state so that most operands are
     valid most of the time; branches make the real control flow differ from it."""
 
-    def __init__(self, ch: Choices, unit_size: int, plant: bool):
+    WEIGHTS = [4, 3, 2, 2, 3, 3, 1, 1, 4, 1, 1, 1, 2, 2, 1]
+
+    def __init__(self, ch: Choices, unit_size: int, plant: bool, weights: Optional[List[int]] = None):
         self.ch = ch
+        self.weights = weights or self.WEIGHTS
         self.shadow = AppState(unit_size)
         self.plant = plant
         self.planted = 0
@@ -87,7 +90,7 @@ class Gen:
     def one(self, pc: int, n: int) -> tuple:
         ch = self.ch
         sh = self.shadow
-        k = ch.weighted([4, 3, 2, 2, 3, 3, 1, 1, 4, 1, 1, 1, 2, 2, 1], "op")
+        k = ch.weighted(self.weights, "op")
         if k == 0:
             r = self.reg()
             v = self.small() if r[0] != "Q" else ch.draw(sh.unit_size + 1, "qv")
@@ -127,10 +130,15 @@ class Gen:
         if k == 11:
             addrs = sorted(sh.arrays) or [0]
             return ("ret_arr", addrs[ch.draw(len(addrs), "addr")] if not ch.flag(1, 12) else ch.draw(4, "addr"))
-        if k == 12:
-            return ("qalloc", self.reg([("Q", 0), ("Q", 1)]))
-        if k == 13:
-            return ("qfree", self.reg([("Q", 0), ("Q", 1)]))
+        if k in (12, 13):
+            op = "qalloc" if k == 12 else "qfree"
+            q = self.reg([("Q", 0), ("Q", 1)])
+            if ch.flag(3, 4, "qvalid"):
+                # aim at an id that is valid per the shadow state (free for qalloc, allocated for qfree)
+                ids = [i for i in range(sh.unit_size) if (i in sh.qubits) == (op == "qfree")]
+                if ids:
+                    return [("set", q, ids[ch.draw(len(ids), "qid")]), (op, q)]
+            return (op, q)
         return (ch.pick(["init", "x", "h", "z"]), self.reg([("Q", 0), ("Q", 1)]))
 
     def planted_fault(self) -> List[tuple]:
@@ -170,8 +178,12 @@ class Gen:
                     self._shadow_step(t)
                 continue
             t = self.one(pc, total)
-            body.append(t)
-            self._shadow_step(t)
+            for t1 in (t if isinstance(t, list) else [t]):
+                body.append(t1)
+                self._shadow_step(t1)
+            if isinstance(t, list):
+                total += len(t) - 1
+                n_body += len(t) - 1
         prog.extend(body)
         # clamp branch targets to the final length
         n = len(prog)
